@@ -55,7 +55,7 @@ def gen_plans(ctx, only=None):
     outs = {b: os.path.join(ctx.scratch, "plan.%s.ndjson" % b) for b in blocks}
 
     def work(b):
-        r = ctx.tlc("Plan_JWKSet", env={"VERIF_OUT": outs[b], "VERIF_BLK": b, "VERIF_MIX": 30000 if ctx.thorough else 2000},
+        r = ctx.tlc("Plan_JWKSet", env={"VERIF_OUT": outs[b], "VERIF_BLK": b, "VERIF_MIX": 80000 if ctx.thorough else 2000},
                     workers=1, heap="4g", timeout=1500, extra=["-seed", str(ctx.seed)])
         if not r.ok:
             raise vlib.Infra("Plan_JWKSet block %s: %s" % (b, r.error or r.summary()))
@@ -325,8 +325,9 @@ MANIFEST = dict(
           "the text, and the key each accepted JWK stands for (algorithm, RAW with CUSTOM kid or IGNORED, key octets). The module is "
           "parametric in curve sizes / point validity / minimum modulus: TLC proves the round-trip theorems on toy sizes over every "
           "octet string of length 0..2 and whole member products (MC_JWKSet: Import(Export(ks)) verifies exactly the tokens ks "
-          "verifies plus kid-less tokens of TINK keys; Export(Import(j)) ~ j; unknown members ignored; nothing private ever). TLC "
-          "enumerates ~19k JWK member combinations and ~1.2k abstract keysets; the Go driver instantiates them with real keys, renders "
+          "verifies plus kid-less tokens of TINK keys; Export(Import(j)) ~ j; unknown members ignored; nothing private ever; 17k "
+          "states quick / 223k thorough). TLC enumerates 21k [128k thorough] JWK Sets (member products per block + seeded random "
+          "mixes of 1..3 keys) and 1.2k [2.6k] abstract keysets; the Go driver instantiates them with real keys, renders "
           "/ parses JSON with its own code, calls the real converter; Trace_JWKSet re-derives instantiation and text and judges "
           "verdict, every projected key, the exported members, and token verification through Import(Export(ks)) of the real code."),
     note=("Growth check (not one of the 20 listed properties). Undocumented choices are as-built parameters of the specification: a "
